@@ -43,7 +43,7 @@ def _one(sc):
     except Exception:
         import traceback
         return dict(machinery=traceback.format_exc()[-1500:])
-    tr = out_trace(cap, conns, flows, o, sc.get("opts", ())) if o is not None else None
+    tr = out_trace(cap, conns, flows, o, sc.get("opts", ())) if o is not None and not sc.get("unclaimed") else None
     c = conns[0]
     got = obs["conns"][0] if obs["conns"] else dict(c=b"", s=b"")
     return dict(sc=sc, crashed=obs["crashed"], exc=obs["exc"], problems=obs["problems"], traces=tr,
@@ -89,6 +89,20 @@ def run(chk):
         seen.add(k)
         jobs.append(scenario(b["recs"], KINDS[len(jobs) % len(KINDS)], rng.randrange(1 << 30), rng.choice([4, 6]),
                              opts=rng.choice([(), (), ("-m",), ("-m", "443:9443"), ("-a",)])))
+    # inputs outside what C01 claims (TLS 1.3 KeyUpdate, HelloRetryRequest, renegotiation, data after an alert): whatever is exported for
+    # them, the file must be well-formed and the run must not abort ("whatever the input"); their content is not judged here
+    for i in range(60 if quick else 1200):
+        ver, suite = KINDS[i % len(KINDS)]
+        cd = dict(ver=ver, suite=suite, seed=rng.randrange(1 << 30), shape={}, flow=dict(ipv=rng.choice([4, 6])),
+                  app=[[rng.choice("cs"), rng.choice([0, 1, 40, 700])] for _ in range(rng.randint(2, 6))], mss=rng.choice([None, 100, 1460]))
+        if ver == R.TLS13:
+            cd["shape"]["hrr"] = rng.random() < 0.4
+            cd["ku_at"] = {str(rng.randrange(len(cd["app"]) + 1)): [rng.choice("cs")] + (["c"] if rng.random() < 0.3 else [])}
+        else:
+            cd["reneg_at"] = rng.randrange(len(cd["app"]))
+        if rng.random() < 0.4:
+            cd["alert_at"] = {str(rng.randrange(len(cd["app"]))): [rng.choice("cs"), rng.choice([1, 2])]}
+        jobs.append(dict(conns=[cd], opts=list(rng.choice([(), ("-a",), ("-m",)])), unclaimed=True, zoo=(cd["seed"] if i % 4 == 0 else 0)))
     results = pool_map(_one, jobs)
     traces = []
     for res in results:
@@ -96,13 +110,13 @@ def run(chk):
             raise Exception("replay failed in the harness: " + res["machinery"])
         chk.evaluations += 1
         recs = [(a[0], a[1]) for a in res["sc"]["conns"][0]["app"]]
-        chk.distinct.add(json.dumps([res["sc"]["conns"][0]["cuts"], recs]))
+        chk.distinct.add(json.dumps([res["sc"]["conns"][0].get("cuts"), recs, res["sc"]["conns"][0].get("ku_at"), res["sc"]["conns"][0].get("reneg_at")]))
         chk.sample(dict(records=[dict(d=d, n=n) for d, n in recs], opts=res["sc"]["opts"]), limit=3)
         if res["crashed"]:
             chk.violation("run aborted: " + res["exc"].strip().splitlines()[-1], dict(scenario=res["sc"]))
         elif res["problems"]:
             chk.violation("output not well-formed: " + res["problems"][0], dict(scenario=res["sc"], problems=res["problems"]))
-        elif "-a" not in res["sc"]["opts"]:
+        elif "-a" not in res["sc"]["opts"] and not res["sc"].get("unclaimed"):
             for t in res["traces"] or []:
                 t["_sc"] = res["sc"]
                 traces.append(t)
